@@ -57,8 +57,8 @@ MANIFEST = {
     "level_text": "PARTIAL. C02 itself (no non-Guppy exception escapes check/compile for any program) is NOT proved; it is SEARCHED: "
     "~10^4 (quick) / ~2.4*10^5 (thorough) programs per run through the real check()+lowering - /repo's ~480 tests/error programs and "
     "~560 integration tests harvested and run against /repo's own sources, AST mutants of them, generated functions and mutants, a "
-    "std-call sweep - with crash / unrenderable diagnostic / span outside the program / hang as failing inputs (20 such crashes were found "
-    "this way and fixed in 17 commits; their witnesses are re-run first). What Lean proves: (a) inventory theorems over a table regenerated "
+    "std-call sweep - with crash / unrenderable diagnostic / span outside the program / hang as failing inputs (21 such crashes were found "
+    "this way and fixed in 18 commits; their witnesses are re-run first). What Lean proves: (a) inventory theorems over a table regenerated "
     "from /repo's sources on every run: every assert / raise InternalGuppyError / non-Guppy raise / assert_never / zip(strict) / local-dict "
     "subscript in the 8 anchored checker files is classified in the committed Spec (`sites_classified`, `id_lists_faithful`, "
     "`classification_functional`), so a NEW site breaks the proof; 20 of 120 sites are `guarded` by an existing theorem (C08 "
